@@ -15,7 +15,7 @@ str/epoch/upstream_version/debian_revision exactly as before).  A history that r
 string or a violation is not extended.
 
 Numeric boundaries (the syntax limits neither the length nor the value of a digit run): the digit runs of
-versyntax.digit_runs() - 2^15, 2^16, 10^9, 2^31, 2^32, 2^63, 2^64, 10^19, 10^20 and their predecessors, a 40-digit run,
+versyntax.digit_runs() - 2^15, 2^16, 10^9, 2^31, 2^32, 2^63, 2^64, 10^19, 10^20 and their predecessors, a 40- and a 300-digit run,
 long runs of small value - bare, with one and with ten leading zeros, as epoch, as upstream version, as a component of
 it, as revision (12 templates) go through the acceptance oracle; the same runs, as str and (value permitting) as int,
 are assigned to epoch, upstream_version and debian_revision of two start versions (all histories of length 1; length 2
@@ -62,7 +62,7 @@ def bounds(tier):
             "assignments": {"starts": STARTS, "attributes": ATTRS, "values": VALUES, "depth": depth_for(tier)},
             "numeric_boundaries": {
                 "digit_runs": versyntax.digit_runs(tier) if tier == "quick" else
-                "%d runs: 2^k-1, 2^k, 2^k+1 (k = 7..256), 10^k-1, 10^k (k = 4..309), 40-, 100- and 1000-digit runs, long "
+                "%d runs: 2^k-1, 2^k, 2^k+1 (k = 7..256), 10^k-1, 10^k (k = 4..309), 40-, 100-, 300- and 1000-digit runs, long "
                 "runs of small value" % len(versyntax.digit_runs(tier)),
                 "leading_zeros": [0, 1, 10],
                 "templates": [t for _p, t in versyntax.DIGIT_RUN_TEMPLATES],
